@@ -29,3 +29,34 @@ package cache
 //@   assume after "dc.cache.Get(key)" : ok ==> typeof(b) == tagof("*bytes.Buffer") && payload(b) != nil
 //@   assume after "dc.fileCache.Get(key)" : ok ==> typeof(f) == tagof("*os.File")
 //@   ensures[C02] forall x ref :: lruGiven[x] == old(lruGiven[x])
+
+// ---- C06 / C02: a cache writer is finished by exactly one of commit or abort ----
+// The in-memory commit hands the pooled buffer over to the LRU (which recycles it when the entry is evicted and no
+// reader holds it); the abort function gives the same buffer back to the pool. Running both -- an abort after a commit
+// that got as far as adding the buffer -- recycles a buffer the LRU still serves, so the bytes of the next chunk written
+// through the pool would appear under this key. Commit runs the commit function once and never the abort function;
+// Abort runs the abort function once and never the commit function (commits / aborts: ghost counters per writer).
+//@ type writer
+//@   ghost commits int
+//@   ghost aborts int
+//@   callback commitFunc
+//@   modifies self.commits
+//@   ensures self.commits == old(self.commits) + 1
+//@   callback abortFunc
+//@   modifies self.aborts
+//@   ensures self.aborts == old(self.aborts) + 1
+//@ func (w *writer) Commit
+//@   props C06,C02
+//@   requires w.commitFunc != nil
+//@   modifies w.commits
+//@   ensures[C06,C02] w.commits == old(w.commits) + 1 && w.aborts == old(w.aborts)
+//@ func (w *writer) Abort
+//@   props C06,C02
+//@   requires w.abortFunc != nil
+//@   modifies w.aborts
+//@   ensures[C06,C02] w.aborts == old(w.aborts) + 1 && w.commits == old(w.commits)
+// the in-memory commit gives its buffer back to the pool only when the LRU did not take it (the key was cached already)
+//@ func (dc *directoryCache) Add$3
+//@   props C06,C02
+//@   requires dc != nil && dc.cache != nil && dc.cache.cache != nil && w != nil && w.WriteCloser != nil
+//@   assert[C06,C02] before "dc.putBuffer(b)" : !added
